@@ -123,8 +123,35 @@ LibDef(name) ==
     [] name = "empty" ->
          [params |-> <<1>>, locals |-> <<>>, body |-> <<"eq", <<"nil">>, V(1)>>]
 
+(* Elaboration of the pattern-matching operators (macros/src/lib.rs, PatternMatchOperator):
+     match t { p1 | p2 => body, ... }
+   is the disjunction, over arms and alternatives, of the clauses [t == p_i, body...]; every
+   name of a pattern is a variable local to its arm AND alternative (the k-th alternative of an
+   arm gets the copies v + 5000 * (k - 1) of the arm's variables; wildcards are distinct
+   variables already), the matched term is evaluated outside the pattern's scope.  `match` and
+   `matche` are interleaving disjunctions, `matcha` / `matchu` apply the committed-choice
+   rules to the same clause list (the match-equation is the head goal of each clause).
+   An arm is a record [pats, vars, body]. *)
+AltRen(vars, k) == [v \in {<<"var", vars[i]>> : i \in 1..Len(vars)} |-> <<"var", v[2] + 5000 * (k - 1)>>]
+RECURSIVE Elab(_)
+ElabGs(gs) == [i \in 1..Len(gs) |-> Elab(gs[i])]
+ElabCl(cls) == [i \in 1..Len(cls) |-> ElabGs(cls[i])]
+Elab(g) ==
+  CASE g[1] = "match" ->
+         LET arms == g[4]
+             ClauseOf(i, k) == << <<"eq", g[3], SubstT(arms[i].pats[k], AltRen(arms[i].vars, k))>> >>
+                               \o SubstGs(ElabGs(arms[i].body), AltRen(arms[i].vars, k))
+             cls == FlatSeq([i \in 1..Len(arms) |-> [k \in 1..Len(arms[i].pats) |-> ClauseOf(i, k)]])
+         IN <<IF g[2] = "matcha" THEN "conda" ELSE IF g[2] = "matchu" THEN "condu" ELSE "conde", cls>>
+    [] g[1] \in {"conj", "disj", "closure"} -> <<g[1], ElabGs(g[2])>>
+    [] g[1] \in {"rawconj", "rawdisj"} -> <<g[1], Elab(g[2]), Elab(g[3])>>
+    [] g[1] \in {"conde", "cond", "dfs", "conda", "condu", "onceo", "loop"} -> <<g[1], ElabCl(g[2])>>
+    [] g[1] \in {"fresh", "project"} -> <<g[1], g[2], ElabGs(g[3])>>
+    [] g[1] = "for" -> <<"for", g[2], g[3], ElabCl(g[4])>>
+    [] OTHER -> g
+
 (* a relation defined by the case (body = list of goals) or a library relation *)
-DefOf(name, D) == IF name \in DOMAIN D THEN [D[name] EXCEPT !.body = <<"conj", D[name].body>>] ELSE LibDef(name)
+DefOf(name, D) == IF name \in DOMAIN D THEN [D[name] EXCEPT !.body = <<"conj", ElabGs(D[name].body)>>] ELSE LibDef(name)
 
 (* the body of relation `name` applied to args, with locals renamed from `base` *)
 Unfold(def, args, base) ==
